@@ -104,7 +104,15 @@ class C07(Check):
                 pre = w.choice([0, 0, 1, 1, 2, 3, 3, 5, 8, 16])
                 sap = w.choice([air.SAPIdentifier.ShortData, air.SAPIdentifier.UDP_IP_compression, air.SAPIdentifier.IP_PacketData,
                                 w.choice(list(air.SAPIdentifier))])
-                bursts, meta = air.generated_data_tx(w, rate, conf, n, pre, cc, sap, w.choice(["random", "random", "zero", "ff", "counter"]), dst=term)
+                fmt = w.choice(["data", "data", "data", "sdd", "resp"])
+                if fmt == "sdd":
+                    n = min(n, 62 * air.TAB[(rate, conf)][0])  # appended blocks is a 6-bit field
+                try:
+                    bursts, meta = air.generated_data_tx(w, rate, conf, n, pre, cc, sap, w.choice(["random", "random", "zero", "ff", "counter"]), dst=term, fmt=fmt)
+                except Exception as e:  # the transmitter side of the system under test failed for a legal configuration: judged in execute()
+                    ops.append({"kind": "data", "term": term, "ts": ts, "bursts": [], "gen_error": f"{type(e).__name__}: {e}"[:300],
+                                "meta": {"rate": rate, "conf": conf, "n": n, "preambles": pre, "cc": cc, "sap": sap.name, "fmt": fmt, "nblocks": 0, "poc": -1, "payload": ""}})
+                    continue
                 ops.append({"kind": "data", "term": term, "ts": ts, "bursts": [[b.hex(), bt, tag] for b, bt, tag in bursts], "meta": meta})
         total = sum(len(o["bursts"]) for o in ops)
         mode = s.choice(["tdma", "random", "bursty"])
@@ -149,6 +157,11 @@ class C07(Check):
         keys = []
         queues = {}
         for i, op in enumerate(case["ops"]):
+            if op.get("gen_error"):
+                m = op["meta"]
+                res.violate("C07.generator-raises", f"{m['rate']}/{'conf' if m['conf'] else 'unconf'}/{m.get('fmt', 'data')}",
+                            f"generate_full_data_transmission raised {op['gen_error']} for n={m['n']} preambles={m['preambles']} sap={m['sap']}", at=i)
+                continue
             sk = (op["term"], op["ts"])
             if sk not in queues:
                 queues[sk] = []
@@ -207,7 +220,7 @@ class C07(Check):
 
     def _judge(self, res, rx, op_i, op, evs, raised, prev, other_busy, CRC32):
         m = op["meta"]
-        site = f"{m['rate']}/{'conf' if m['conf'] else 'unconf'}"
+        site = f"{m['rate']}/{'conf' if m['conf'] else 'unconf'}" + ("" if m.get("fmt", "data") == "data" else "/" + m["fmt"])
         res["evals"] += 1
         V = lambda oracle, detail: res.violate(oracle, site, detail + f" [n={m['n']} blocks={m['nblocks']} pre={m['preambles']} poc={m['poc']} sap={m['sap']}]", at=op_i)
         if raised:
@@ -221,10 +234,11 @@ class C07(Check):
         rate_blocks = [x for x in blocks if type(x).__name__ in ("Rate12Data", "Rate34Data", "Rate1Data")]
         csbks = [x for x in blocks if type(x).__name__ == "CSBK"]
         payload = bytes.fromhex(m["payload"])
-        if getattr(hdr, "pad_octet_count", None) != m["poc"]:
+        announces_pad = m.get("fmt", "data") == "data"  # DD_HEAD / response headers carry no pad-octet field: the generator's padding is the reference
+        if announces_pad and getattr(hdr, "pad_octet_count", None) != m["poc"]:
             V("C07.pad", f"header handed over announces pad_octet_count={getattr(hdr, 'pad_octet_count', None)}, generator padded {m['poc']}")
         data = b"".join(x.data for x in rate_blocks)
-        want = payload + bytes(getattr(hdr, "pad_octet_count", 0) or 0)
+        want = payload + bytes((getattr(hdr, "pad_octet_count", 0) or 0) if announces_pad else m["poc"])
         if data != want:
             V("C07.payload", f"received {len(data)} octets {data.hex()[:80]}.., expected payload+pad {len(want)} octets {want.hex()[:80]}..")
         if len(rate_blocks) != m["nblocks"]:
@@ -248,7 +262,7 @@ class C07(Check):
             V("C07.idle-after", f"tracker is {tr.type.name if tr else None} after the transmission ended")
         nb = m["nblocks"]
         res["cov"].add(f"{m['rate']}|{int(m['conf'])}|b{min(nb, 3) if nb < 4 else ('4+' if nb < 100 else 'max')}|p{0 if m['poc'] == 0 else (1 if m['poc'] < 4 else 2)}"
-                       f"|pre{min(m['preambles'], 3)}|{prev}|{int(other_busy)}")
+                       f"|pre{min(m['preambles'], 3)}|{prev}|{int(other_busy)}|{m.get('fmt', 'data')}")
         if nb == 1:
             res.probe("single_block_transmission")
         if nb >= 120:
